@@ -128,6 +128,16 @@ func (s *Builder) prepareMatch(allShortestPaths bool) error {
 			if err := walk.Cypher(typedClause, bindWalk); err != nil {
 				return err
 			}
+
+		case *cypher.Set:
+			if err := walk.Cypher(typedClause, bindWalk); err != nil {
+				return err
+			}
+
+		case *cypher.Remove:
+			if err := walk.Cypher(typedClause, bindWalk); err != nil {
+				return err
+			}
 		}
 	}
 
